@@ -224,6 +224,13 @@ Spec == Init /\ [][Next]_vars
 \* = an agent that can connect to a seeder again and again eventually does (strong fairness on Open(a, seeder):
 \* the handout keeps containing the seeder and every other peer that proved useless is blacklisted for longer
 \* than the announce interval).  Leave and Lose are not fair.
+\* Under these assumptions TLC proves Converges when every agent holds at most ONE connection (any limits for the
+\* seeder and the corrupter), and for agents with two connections when there is no corrupter.  With a corrupter AND
+\* an agent holding two connections it finds a fair cycle: in endgame the agent asks the seeder and the corrupter
+\* for the same piece, the wrong payload starts its write first, the good payload gets a write conflict (handled
+\* like an invalid payload), the wrong one then fails its checksum - and the same race may be lost again after
+\* every re-request.  The real code leaves that cycle only by timing; no fairness assumption on single steps
+\* excludes it (MC_Swarm_conn2.cfg checks the safety properties of those instances).
 MaxNP == CHOOSE n \in NPs : \A m \in NPs : m <= n
 Fair == /\ \A a \in Agents : WF_vars(Join(a)) /\ WF_vars(Notice(a))
         /\ \A p, q \in Peers : WF_vars(CloseEnd(p, q))
